@@ -51,7 +51,7 @@ checks = [
 ]
 if os.path.exists("/verif/sim/src/c20/mod.rs"):
     checks.append(check("C20", "jiffsim", "DESIGN.md section 4",
-  "Seeded search over programs x schedules: bounded programs (new/clone/clone_from/drop/move/eq/query incl. transition iterators whose items outlive them, 34 Zoned-producing and 9 in-place Zoned APIs, 16 two-value Zoned APIs, TimeZone->Zoned/AmbiguousZoned constructors, consuming AmbiguousZoned APIs, send/recv/swap between threads, thread crash) over TimeZone, Zoned and AmbiguousZoned values of every kind (UTC, unknown, fixed, POSIX incl. near-duplicate strings, TZif from bytes incl. same-name/different-data, footer-rule and static-twin zones, static zones as two get! expansions in two spellings, zones from a per-run TimeZoneDatabase through get and four parsing APIs, zones from the process-global database through TimeZone::get / in_tz / FromStr / strptime, the unnamed system zone) run on 1-4 simulated threads, each a real OS thread (own thread-locals) of which exactly one runs at a time; the hand-over at every operation boundary is decided by the run's PRNG and recorded. After every operation a counting global allocator is compared with a handle-count model (every allocation of a heap zone live while a handle exists, all freed exactly when the last handle goes, never twice, nothing leaked, constructors returning memory of a freed zone reported), every query is compared with a reference handle, with documented constants and with the recorded answers of the pinned tree, and equality laws (reflexive, symmetric, stable, expected value within a kind) are checked; every batch also sweeps all 187,199 fixed offsets (incl. abbreviations against an independent formatter), runs three recording-free self-consistency checks and the recorded behaviour digest for each of 175 pooled zones, and compares each static zone with its twin and with the heap zone built from the same bytes. Both tiers (the thorough one at greater depth) re-run generated programs and directed clone/drop/query race rounds on free-running threads under Miri's seeded scheduler (use-after-free, double free, leaks, data races, invalid tagged pointers). Sampling, not proof.",
+  "Seeded search over programs x schedules: bounded programs (new/clone/clone_from/drop/move/eq/query incl. transition iterators whose items outlive them, 34 Zoned-producing and 9 in-place Zoned APIs, 16 two-value Zoned APIs, TimeZone->Zoned/AmbiguousZoned constructors, consuming AmbiguousZoned APIs, send/recv/swap between threads, thread crash) over TimeZone, Zoned and AmbiguousZoned values of every kind (UTC, unknown, fixed, POSIX incl. near-duplicate strings, TZif from bytes incl. same-name/different-data, footer-rule and static-twin zones, static zones as two get! expansions in two spellings, zones from a per-run TimeZoneDatabase through get and four parsing APIs, zones from the process-global database through TimeZone::get / in_tz / FromStr / strptime, the unnamed system zone) run on 1-4 simulated threads, each a real OS thread (own thread-locals) of which exactly one runs at a time; the hand-over at every operation boundary is decided by the run's PRNG and recorded. After every operation a counting global allocator is compared with a handle-count model (the block a heap zone's handles point into stays allocated while a handle exists and is freed exactly when the last handle goes, never twice; constructors returning memory of a freed zone reported; a kind whose holder the program cannot see -- the system zone -- is pinned: premature frees only), every query is compared with a reference handle, with documented constants and with the recorded answers of the pinned tree, and equality laws (reflexive, symmetric, stable, expected value within a kind) are checked; every batch also sweeps all 187,199 fixed offsets (incl. abbreviations against an independent formatter), runs three recording-free self-consistency checks and the recorded behaviour digest for each of 175 pooled zones, and compares each static zone with its twin and with the heap zone built from the same bytes. Both tiers (the thorough one at greater depth) re-run generated programs and directed clone/drop/query race rounds on free-running threads under Miri's seeded scheduler (use-after-free, double free, leaks, data races, invalid tagged pointers). Sampling, not proof.",
   "Trusted: Arc's atomics and the system allocator (native tier; Miri goes inside them), the counting allocator's bookkeeping, x86_64 only (A6). The native tier has scheduling points between operations only; which thread performs which clone/drop and the last drop is what schedules vary. Panics of Zoned arithmetic APIs are not C20 violations (counted in the evidence); the recorded answer table cannot flag the tree it was recorded from.",
   "deterministic simulation (seeded scheduler over handle programs, crash faults, allocator-level memory oracle; Miri tier)"))
 else:
